@@ -420,3 +420,71 @@ pub fn summary_render(e: &[(String, Vec<String>)]) -> String {
     for (k, vs) in e { for v in vs { s.push_str(k); s.push('='); s.push_str(v); s.push('\n'); } }
     s
 }
+
+// ---------------- distinfo (C10, C11, C12) ----------------
+use std::path::PathBuf;
+#[derive(Debug, Clone, PartialEq)]
+pub struct DEntry { pub name: Vec<u8>, pub size: Option<u64>, pub sums: Vec<(String, String)>, pub patch: bool }
+#[derive(Debug, Clone, PartialEq, Default)]
+pub struct DInfo { pub rcsid: Option<Vec<u8>>, pub dist: Vec<DEntry>, pub patch: Vec<DEntry> }
+pub const DIGESTS: &[&str] = &["BLAKE2s", "MD5", "RMD160", "SHA1", "SHA256", "SHA512"];
+pub fn is_patch_name(full: &[u8]) -> bool {
+    use std::os::unix::ffi::OsStrExt;
+    let p = PathBuf::from(std::ffi::OsStr::from_bytes(full));
+    let Some(f) = p.file_name() else { return false };
+    let t = f.to_string_lossy();
+    if t.starts_with("patch-local-") || t.ends_with(".orig") || t.ends_with(".rej") || t.ends_with('~') { return false; }
+    let emul = t.starts_with("emul-") && t["emul-".len()..].contains("-patch-");
+    (t.starts_with("patch-") || emul) && !t.contains(".tar.")
+}
+fn same_path(a: &[u8], b: &[u8]) -> bool {
+    use std::os::unix::ffi::OsStrExt;
+    PathBuf::from(std::ffi::OsStr::from_bytes(a)) == PathBuf::from(std::ffi::OsStr::from_bytes(b))
+}
+/// C11: parse arbitrary distinfo text
+pub fn distinfo_parse(text: &[u8]) -> DInfo {
+    let mut d = DInfo::default();
+    for raw in text.split(|&c| c == b'\n') {
+        let mut s = 0;
+        while s < raw.len() && is_ws(raw[s]) { s += 1; }
+        let line = &raw[s..];
+        if line.is_empty() || line[0] == b'#' { continue; }
+        if line.starts_with(b"$NetBSD: ") { d.rcsid = Some(line.to_vec()); continue; }
+        let f: Vec<&[u8]> = line.split(|&c| is_ws(c)).filter(|x| !x.is_empty()).collect();
+        if f.len() < 4 { continue; }
+        let (Ok(action), Ok(value)) = (std::str::from_utf8(f[0]), std::str::from_utf8(f[3])) else { continue };
+        if f[1].len() < 2 && !(f[1].len() >= 1 && f[1][0] == b'(' && f[1][f[1].len() - 1] == b')') { continue; }
+        if f[1][0] != b'(' || f[1][f[1].len() - 1] != b')' || f[1].len() < 2 { if !(f[1] == b"()" ) { if f[1][0] != b'(' || f[1][f[1].len()-1] != b')' { continue; } } }
+        if f[1].len() < 2 { continue; }
+        if f[2] != b"=" { continue; }
+        let name = f[1][1..f[1].len() - 1].to_vec();
+        let patch = is_patch_name(&name);
+        let list = if patch { &mut d.patch } else { &mut d.dist };
+        if action == "Size" {
+            let Ok(n) = value.parse::<u64>() else { continue };
+            match list.iter_mut().find(|e| same_path(&e.name, &name)) {
+                Some(e) => e.size = Some(n),
+                None => list.push(DEntry { name, size: Some(n), sums: vec![], patch }),
+            }
+        } else {
+            let Some(canon) = DIGESTS.iter().find(|x| x.to_lowercase() == action.to_lowercase()) else { continue };
+            match list.iter_mut().find(|e| same_path(&e.name, &name)) {
+                Some(e) => e.sums.push((canon.to_string(), value.to_string())),
+                None => list.push(DEntry { name, size: None, sums: vec![(canon.to_string(), value.to_string())], patch }),
+            }
+        }
+    }
+    d
+}
+/// C10: canonical layout
+pub fn distinfo_print(d: &DInfo) -> Vec<u8> {
+    let mut o = d.rcsid.clone().unwrap_or_else(|| b"$NetBSD$".to_vec());
+    o.extend_from_slice(b"\n\n");
+    for (list, with_size) in [(&d.dist, true), (&d.patch, false)] {
+        for e in list {
+            for (a, h) in &e.sums { o.extend_from_slice(a.as_bytes()); o.extend_from_slice(b" ("); o.extend_from_slice(&e.name); o.extend_from_slice(b") = "); o.extend_from_slice(h.as_bytes()); o.push(b'\n'); }
+            if let (true, Some(n)) = (with_size, e.size) { o.extend_from_slice(b"Size ("); o.extend_from_slice(&e.name); o.extend_from_slice(format!(") = {} bytes\n", n).as_bytes()); }
+        }
+    }
+    o
+}
